@@ -19,7 +19,7 @@ from mc import common
 from mc.oracles import geometry as geo
 
 LEVEL = "exploration"
-CLASSES = ["Cuboid", "Cylinder", "CylinderSegment", "Sphere", "Tetrahedron", "TriangularMesh", "Triangle", "Circle", "Polyline", "Dipole",
+CLASSES = ["Cuboid", "Cylinder", "CylinderSegment", "Sphere", "Tetrahedron", "TriangularMesh", "Triangle", "Circle", "Polyline", "Dipole", "DipoleMz", "DipolePz", "DipoleMx", "TriangularMeshMulti",
            "Sensor"]
 PATHS = ["static", "transl3", "rot4", "spin4"]
 FRAMES = ["default", 1, 2, [0, 2], [0, 9]]
@@ -31,6 +31,10 @@ TF = [(0, 2, 1), (0, 1, 3), (0, 3, 2), (1, 2, 3)]
 PAR = {"Cuboid": {"dimension": (1.0, 1.2, 0.8)}, "Cylinder": {"dimension": (1.0, 1.2)}, "CylinderSegment": {"dimension": (0.3, 0.9, 1.1, -30, 200)},
        "Sphere": {"diameter": 1.1}, "Tetrahedron": {"vertices": [TV[0], TV[2], TV[1], TV[3]]}, "TriangularMesh": {"vertices": TV, "faces": TF},
        "Triangle": {"vertices": TV[:3]}, "Circle": {"diameter": 1.3}, "Polyline": {"vertices": [(0, 0, 0), (1, 1, 0.5), (1, 2, -0.4)]}}
+# eight separate tetrahedra in one mesh, drawn with one colour per body (style.mesh.disconnected.show)
+_MV = np.concatenate([np.array(TV) * 0.4 + np.array((1.3 * k - 4.5, 0.2 * (k % 3), 0.1 * k)) for k in range(8)])
+_MF = np.concatenate([np.array(TF) + 4 * k for k in range(8)])
+PAR["TriangularMeshMulti"] = {"vertices": _MV, "faces": _MF}
 UNIT_FACTOR = {"m": 1.0, "mm": 1e3, "km": 1e-3, "cm": 1e2, "dm": 1e1, "µm": 1e6, "um": 1e6, "nm": 1e9, "Mm": 1e-6, "Gm": 1e-9, "Tm": 1e-12, "pm": 1e12}
 
 
@@ -45,11 +49,12 @@ def mk(cls, pathkind, scale=1.0):
         par = {k: float(v) for k, v in par.items()}
     C = {"Cuboid": magpy.magnet.Cuboid, "Cylinder": magpy.magnet.Cylinder, "CylinderSegment": magpy.magnet.CylinderSegment,
          "Sphere": magpy.magnet.Sphere, "Tetrahedron": magpy.magnet.Tetrahedron, "TriangularMesh": magpy.magnet.TriangularMesh,
+         "TriangularMeshMulti": lambda **kw: magpy.magnet.TriangularMesh(check_disconnected="ignore", style_mesh_disconnected_show=True, **kw),
          "Triangle": magpy.misc.Triangle, "Circle": magpy.current.Circle, "Polyline": magpy.current.Polyline}
     if cls in ("Circle", "Polyline"):
         o = C[cls](current=1.5, **par)
-    elif cls == "Dipole":
-        o = magpy.misc.Dipole(moment=(0.3, -0.2, 0.7))
+    elif cls.startswith("Dipole"):   # also moments exactly along / against a coordinate axis of the local frame
+        o = magpy.misc.Dipole(moment={"Dipole": (0.3, -0.2, 0.7), "DipoleMz": (0, 0, -0.7), "DipolePz": (0, 0, 0.7), "DipoleMx": (-0.7, 0, 0)}[cls])
     elif cls == "Sensor":
         o = magpy.Sensor(pixel=np.array([(0, 0, 0), (0.1, 0.05, 0), (0, -0.1, 0.08)]) * scale)
     else:
@@ -88,6 +93,8 @@ def traces_of(fig_data, obj):
         hit = any(isinstance(x, str) and x.lower() == col for x in cands)
         if not hit and getattr(t, "facecolor", None) is not None:
             hit = any(isinstance(x, str) and x.lower() == col for x in t.facecolor)
+        if not hit and t.type == "mesh3d" and f"(id={id(obj)})" in (t.legendgroup or ""):
+            hit = True    # bodies of a disconnected mesh coloured one by one: attributed by the legend group of the object
         if hit:
             out.append(t)
     return out
@@ -95,6 +102,15 @@ def traces_of(fig_data, obj):
 
 def xyz(t):
     return np.array([t.x, t.y, t.z], float).T
+
+
+def drawn_xyz(t):
+    """vertices of a mesh3d trace that are part of the drawn surface (referred to by a face)"""
+    P = xyz(t)
+    if getattr(t, "i", None) is None:
+        return P
+    used = np.unique(np.concatenate([np.asarray(t.i, int), np.asarray(t.j, int), np.asarray(t.k, int)]))
+    return P[used]
 
 
 def expected_indices(L, frames):
@@ -109,14 +125,23 @@ def check_object(cls, obj, traces, factor, frames, scale, displayed=None):
     """returns list of problems for one object in one set of traces"""
     from scipy.spatial.transform import Rotation as R
 
+    if cls == "TriangularMeshMulti":
+        PAR_cls, cls = PAR[cls], "TriangularMesh"
+        return _check_object(cls, obj, traces, factor, frames, scale, displayed, PAR_cls)
+    return _check_object(cls, obj, traces, factor, frames, scale, displayed, PAR.get(cls, {}))
+
+
+def _check_object(cls, obj, traces, factor, frames, scale, displayed, PARc):
+    from scipy.spatial.transform import Rotation as R
+
     problems = []
     L = len(obj._position)
     idxs = displayed if displayed is not None else expected_indices(L, frames)
     meshes = [t for t in traces if t.type == "mesh3d"]
     lines = [t for t in traces if t.type == "scatter3d" and (t.mode or "") == "lines"]
     paths = [t for t in traces if t.type == "scatter3d" and "markers" in (t.mode or "")]
-    size = geo.size_of(cls, {k: np.array(v) * (1 if k == "faces" else scale) for k, v in PAR.get(cls, {}).items()}) if cls in PAR else 0.3 * scale
-    par = {k: (v if k == "faces" else (np.array(v, float) * scale)) for k, v in PAR.get(cls, {}).items()}
+    size = geo.size_of(cls, {k: np.array(v) * (1 if k == "faces" else scale) for k, v in PARc.items()}) if PARc else 0.3 * scale
+    par = {k: (v if k == "faces" else (np.array(v, float) * scale)) for k, v in PARc.items()}
     if cls == "CylinderSegment":
         d = np.array(PAR[cls]["dimension"], float)
         par = {"dimension": (d[0] * scale, d[1] * scale, d[2] * scale, d[3], d[4])}
@@ -139,7 +164,7 @@ def check_object(cls, obj, traces, factor, frames, scale, displayed=None):
     if cls in ("Cuboid", "Cylinder", "CylinderSegment", "Sphere", "Tetrahedron", "TriangularMesh", "Triangle"):
         if not meshes:
             return problems + ["no-mesh-trace"]
-        V = np.concatenate([xyz(t) / factor for t in meshes])
+        V = np.concatenate([drawn_xyz(t) / factor for t in meshes])
         owner = np.full(len(V), -1)
         for m in idxs:
             loc = back(V, m)
@@ -216,7 +241,7 @@ def check_object(cls, obj, traces, factor, frames, scale, displayed=None):
             if np.max(best) > 0.01 * size:
                 problems.append(f"conductor-points-not-on-drawn-line:max-dist-{np.max(best) / size:.3g}-sizes-at-index-{m}")
                 break
-    elif cls in ("Sensor", "Dipole"):
+    elif cls == "Sensor" or cls.startswith("Dipole"):
         if not meshes:
             return problems + ["no-glyph-trace"]
         V = np.concatenate([xyz(t) / factor for t in meshes])
@@ -250,6 +275,13 @@ def check_object(cls, obj, traces, factor, frames, scale, displayed=None):
                     break
                 if abs((c - p) @ mom) > 0.15 * ext + 1e-12:
                     problems.append("dipole-arrow-not-centred-on-position")
+                    break
+                # the sense: the widest ring of the glyph is the base of the arrow head, it lies on the tip side of the middle
+                tpos = (W - c) @ mom
+                rad = np.linalg.norm((W - c) - np.outer(tpos, mom), axis=1)
+                wide = tpos[rad > 0.9 * rad.max()]
+                if len(wide) and np.mean(wide) < 0:
+                    problems.append("dipole-arrow-points-against-the-moment")
                     break
     return problems
 
@@ -301,11 +333,11 @@ def run_case(c):
     for flag in ("style_magnetization_show", "style_arrow_show", "style_orientation_show"):
         pass
     skw = {}
-    if cls in ("Cuboid", "Cylinder", "CylinderSegment", "Sphere", "Tetrahedron", "TriangularMesh", "Triangle"):
+    if cls in ("Cuboid", "Cylinder", "CylinderSegment", "Sphere", "Tetrahedron", "TriangularMesh", "Triangle", "TriangularMeshMulti"):
         obj.style.magnetization.show = False
     if cls == "Triangle":
         obj.style.orientation.show = False
-    if cls == "TriangularMesh":
+    if cls in ("TriangularMesh", "TriangularMeshMulti"):
         obj.style.orientation.show = False
     if cls in ("Circle", "Polyline"):
         obj.style.arrow.show = False
@@ -389,7 +421,7 @@ def run_fault(c):
     objs = [mk("Cuboid" if cls != "Cuboid" else "Sphere", "transl3"), mk(cls, "rot4"), mk("Sensor", "static")]
     objs[0].style.color, objs[2].style.color = "#111111", "#222222"
     objs = objs[-pos:] + objs[:-pos] if pos else objs        # position of the faulty object in the argument list
-    bad = [o for o in objs if type(o).__name__ == cls][-1] if cls != "Sensor" else objs[(2 + pos) % 3]
+    bad = [o for o in objs if type(o).__name__ == ("Dipole" if cls.startswith("Dipole") else "TriangularMesh" if cls.startswith("TriangularMesh") else cls)][-1] if cls != "Sensor" else objs[(2 + pos) % 3]
     kw = {"backend": "plotly", "return_fig": True}
 
     calls = {"n": 0}
@@ -472,7 +504,7 @@ def run_mpl(c):
     cls, pk, frames, unit = c["cls"], c["path"], c["frames"], c["unit"]
     scale = {"m": 1.0, "mm": 1e-3, "km": 1e3}[unit] if c.get("scaled") else 1.0
     obj = mk(cls, pk, scale)
-    if cls in ("Cuboid", "Cylinder", "CylinderSegment", "Sphere", "Tetrahedron", "TriangularMesh", "Triangle"):
+    if cls in ("Cuboid", "Cylinder", "CylinderSegment", "Sphere", "Tetrahedron", "TriangularMesh", "Triangle", "TriangularMeshMulti"):
         obj.style.magnetization.show = False
     if cls in ("Triangle", "TriangularMesh"):
         obj.style.orientation.show = False
@@ -675,10 +707,12 @@ def enumerate_cases(tier):
             for frames in FRAMES:
                 if pk == "static" and frames != "default":
                     continue
-                if pk == "spin4" and cls in ("Sphere", "Dipole"):
+                if pk == "spin4" and (cls == "Sphere" or cls.startswith("Dipole")):
                     continue   # poses of a body that is symmetric under the turn cannot be told apart in the drawing
                 for unit in (UNITS if tier == "thorough" else ["m", "mm", "Mm", "auto:Mm", "auto:µm"]):
                     for nest in NEST:
+                        if cls == "TriangularMeshMulti" and nest != "bare":
+                            continue   # its traces are attributed through the legend group, which is the parent's for a child
                         if tier == "quick" and nest in ("nested", "deep3", "deep4") and (unit != "m" or frames not in ("default", 1)):
                             continue
                         if tier == "quick" and unit in ("Mm", "auto:Mm", "auto:µm") and (nest != "bare" or frames not in ("default", 1)):
@@ -689,6 +723,8 @@ def enumerate_cases(tier):
             for pk in ("transl3", "rot4", "long11"):
                 for nest in ("bare", "coll"):
                     if tier == "quick" and (nest == "coll" and anim != True):  # noqa: E712
+                        continue
+                    if cls == "TriangularMeshMulti" and nest != "bare":
                         continue
                     if pk == "long11" and anim not in ("downsample", "kwargs"):
                         continue
@@ -704,7 +740,7 @@ def enumerate_cases(tier):
                             cases.append({"extra": True, "cls": cls, "path": pk, "frames": frames, "unit": unit, "form": form, "tscale": tscale,
                                           "nest": "bare", "anim": False})
     for cls in CLASSES:
-        if cls in ("Sensor", "Dipole"):
+        if cls == "Sensor" or cls.startswith("Dipole"):
             continue   # autosized glyphs are backend specific
         for pk in PATHS:
             for frames in FRAMES:
